@@ -42,7 +42,7 @@ StrDefault(X, A, n) ==
            ws == IF DirectDep(X, A, n) = 2 THEN RevOn(X, A, S.wsets) ELSE <<>>
            wv == IF ws = <<>> THEN ""
                  ELSE IF S.type \in {"int", "hex"} THEN ws[1].e.v[2] ELSE AtomStr(X, A, ws[1].e.v)
-       IN IF wv # "" THEN wv          \* an enabled `set default` is what it falls back to
+       IN IF ws # <<>> /\ (S.type = "string" \/ wv # "") THEN wv   \* an enabled `set default` is what it falls back to
           ELSE IF di = 0 THEN "" ELSE AtomStr(X, A, S.defaults[di].v)
 
 \* the member a choice selects without looking at the user's pick
